@@ -94,6 +94,10 @@ class FrameParser(Parser):
             )
             if self.validate:
                 frame.validate()
+                if frame.is_control and payload_length > 125:
+                    raise errors.ProtocolError(
+                        "control frames must be <= 125 bytes in length"
+                    )
 
             if frame.is_text:
                 self._is_text = True
